@@ -26,6 +26,7 @@ Opt   == INSTANCE MC_Opt
 Scope == INSTANCE MC_Scope
 Alias == INSTANCE MC_Alias
 Hist  == INSTANCE MC_History
+Det   == INSTANCE MC_Det
 
 Host == <<<<"t", <<"log">>>>>>
 SemFuel == 80
@@ -66,6 +67,7 @@ Init ==
   \/ \E sh \in 1..14 : row = [k |-> "a0", sh |-> sh, done |-> FALSE]
   \/ \E k1 \in 1..NK : row = [k |-> "o0", k1 |-> k1, done |-> FALSE]
   \/ \E sc \in 1..2, m1 \in 0..9 : row = [k |-> "h0", sc |-> sc, m1 |-> m1, done |-> FALSE]
+  \/ \E a \in 1..Det!NK : row = [k |-> "d0", a |-> a, done |-> FALSE]
 
 Next ==
   /\ ~row.done
@@ -94,6 +96,12 @@ Next ==
              /\ (Tier = "thorough" \/ (row.m1 + 3 * m2 + 5 * m3 + Seed - 1) % 7 = 0)
              /\ row' = MkRowG("history", IF row.sc = 1 THEN Hist!Script1 ELSE Hist!Script2,
                               <<<<<<"M", I(row.m1)>>>>, <<<<"M", I(m2)>>>>, <<<<"M", I(m3)>>>>>>, Hist!G0)
+     \/ \* hash literals over keys which print alike (MC_Det): built, printed, listed, iterated and indexed
+        /\ row.k = "d0"
+        /\ \/ \E b \in 1..Det!NK : row' = MkRow("det", Det!Observe(Det!HashLit(<<row.a, b>>)), Twice)
+           \/ \E b \in 1..Det!NK, c \in 1..Det!NK :
+                /\ (Tier = "thorough" \/ (row.a + 2 * b + 3 * c + Seed - 1) % 5 = 0)
+                /\ row' = MkRow("det", Det!Observe(Det!HashLit(<<row.a, b, c>>)), Twice)
      \/ /\ row.k = "o0"
         /\ \E m1 \in 0..Opt!NC, k2 \in 1..NK, m2 \in 0..Opt!NC, sh \in {"nest2", "seq2", "first"} :
              /\ (m1 > 0 => Opt!UsesC(row.k1)) /\ (m2 > 0 => Opt!UsesC(k2)) /\ (m1 > 0 \/ m2 > 0)
